@@ -109,3 +109,88 @@ def write_only_member(m, struct_names, field):
                     else:
                         return False
     return True
+
+
+
+def member_influences_protocol(m, struct_names, field, known_fields):
+    """Does the additional member `field` take part in the structure's protocol in unit m?  True if a value loaded from it reaches
+    (through arithmetic, conversions, comparisons, phis) a value stored into / combined atomically with a documented member, an
+    address that is stored through, the return value of a function that is more than an accessor, a call argument, or a branch
+    that decides whether documented members are written or which value is returned.  A member that is only compared with and
+    stored back into itself (a high-water mark), only returned by its accessor, or only called through (an optional hook) does
+    not influence the protocol."""
+    from .. import flow
+    FLOW = ("add", "sub", "mul", "and", "or", "xor", "shl", "lshr", "ashr", "zext", "sext", "trunc", "phi", "select", "freeze",
+            "icmp", "udiv", "sdiv", "urem", "srem", "bitcast", "getelementptr", "ptrtoint", "inttoptr")
+    for fn in m.defined_functions():
+        acc = flow.accesses(fn, m)
+        mine = [a for a in acc if a.struct in struct_names and a.field == field]
+        loads = [a for a in mine if a.kind == "load"]
+        if not loads:
+            continue
+        my_stores = set(id(a.inst) for a in mine if a.kind == "store")
+        known_writes = set(id(a.inst) for a in acc if a.struct in struct_names and a.field in known_fields and (a.writes or a.kind in ("rmw", "cmpxchg")))
+        other_effects = [a for a in acc if a.writes and id(a.inst) not in my_stores]
+        is_accessor = not other_effects and not [c for c in fn.calls() if not (c.callee or "").startswith("llvm.")]
+        taint = set()
+        work = [a.inst.name for a in loads]
+        while work:
+            v = work.pop()
+            if v in taint:
+                continue
+            taint.add(v)
+            for u in fn.users(v):
+                if u.op in FLOW and u.name:
+                    work.append(u.name)
+        tainted = lambda o: o.k == "inst" and o.name in taint
+
+        def reach(b):
+            seen, st = set(), [b]
+            while st:
+                x = st.pop()
+                if x.name in seen:
+                    continue
+                seen.add(x.name)
+                st.extend(x.succs)
+            return seen
+        for blk in fn.order:
+            for i in blk.insts:
+                if i.is_dbg():
+                    continue
+                if i.op == "store":
+                    if tainted(i.ops[0]) and id(i) not in my_stores:
+                        return True
+                    if tainted(i.ops[1]):
+                        return True
+                elif i.op in ("atomicrmw", "cmpxchg"):
+                    if any(tainted(o) for o in i.ops):
+                        return True
+                elif i.op == "ret":
+                    if i.ops and tainted(i.ops[0]) and not is_accessor:
+                        return True
+                elif i.op == "call":
+                    if any(tainted(a) for a in i.args) and not (i.callee or "").startswith("llvm."):
+                        return True
+                elif i.op in ("br", "switch") and i.cond is not None and tainted(i.cond):
+                    succs = [fn.blocks[s_ if isinstance(s_, str) else s_.name] for s_ in i.succs]
+                    rs = [reach(b) for b in succs]
+                    common = set.intersection(*rs) if rs else set()
+                    excl = set().union(*rs) - common
+                    for bn in excl:
+                        for j in fn.blocks[bn].insts:
+                            if id(j) in known_writes or j.op in ("atomicrmw", "cmpxchg", "fence", "ret") or \
+                                    (j.op in ("load", "store") and j.is_atomic()):
+                                return True
+                            if j.op == "store" and id(j) not in my_stores:
+                                return True
+                    # a value chosen by the branch at the join
+                    for bn in common:
+                        for j in fn.blocks[bn].insts:
+                            if j.op != "phi":
+                                break
+                            if any((b_ if isinstance(b_, str) else b_.name) in excl or (b_ if isinstance(b_, str) else b_.name) == blk.name
+                                   for v_, b_ in j.incoming) and len(set(v_.key() for v_, b_ in j.incoming)) > 1:
+                                users = fn.users(j.name)
+                                if any(not (u.op == "store" and id(u) in my_stores) for u in users):
+                                    return True
+    return False
